@@ -365,7 +365,7 @@ def scenario_stitched(env, store, graph, src_desc):
 def src_raw(env, rng, i):
     store = 'shared' if i % 2 == 0 else 'disjoint'
     imp, cls = env.imps[store]
-    desc = rawgraph.gen_graph(rng)
+    desc = rawgraph.gen_graph(rng, selfloops=rng.choice([0.0, 0.0, 0.15]))
     gid = fresh_id('raw')
     route = rng.randrange(3)
     if route == 0:
